@@ -218,7 +218,7 @@ func checkC20(c *an.Ctx) {
 	c.Rule("C20.2", "event registry (E9): the package's map[fsnotify.Op]string has a key for every exported constant of type fsnotify.Op; the default event list equals the set of its values; configured names are stored as given")
 	c.Rule("C20.3", "filter and variables (E2 trace of the handler started by the event loop, E5): the task runs exactly once when events[table[event.Op]] holds and not at all otherwise; the run's task is a fresh copy of Watcher.task whose env is [Task.Env < {EventName: table[event.Op], EventPath: event.Name}]")
 	c.Rule("C20.4", "registration (E3): Watcher.Run adds every selected path to fsnotify and returns an Add error; a renamed path is re-added")
-	c.Rule("C20.5", "keeps serving (E3/E8): the event loop ends only when the watcher is closed or a channel is closed; each handler runs in its own goroutine registered with the events WaitGroup; no TaskRunner.Run follows a TaskRunner.Cancel on the same runner (the runner's context is created once and Run refuses a cancelled context)")
+	c.Rule("C20.5", "keeps serving (E3/E8): the event loop ends only when the watcher is closed or a channel is closed; each handler runs in its own goroutine registered with the events WaitGroup; no TaskRunner.Run follows a TaskRunner.Cancel on the same runner (the runner's context is created once and Run refuses a cancelled context); a mutex taken by the handler is released on every path to its exit, one taken in the event loop on every path to the next pass")
 	c.NotDecided = append(c.NotDecided, "doublestar's matching semantics, fsnotify delivery", "combined Op bit masks (looked up by exact value: observation)", "the 1 s polling period")
 	wr := resolveWatch(c)
 	if wr.nw == nil || wr.run == nil {
@@ -1390,6 +1390,88 @@ func serving(c *an.Ctx, wr *watchRoles, rule string) {
 		}
 	}
 	_ = loopFn
+	// a lock taken for an event is given back for the next one: in the handler (and the helpers of the package it
+	// calls) every acquired mutex is released on every path to the exit; in the event loop, on every path that
+	// goes on to the next pass (a path that leaves the loop ends the loop's goroutine and is not a pass)
+	if wr.handle != nil {
+		perEvent := p.Reach([]*ssa.Function{wr.handle}, func(e an.CallEdge) bool { return e.Kind == an.EdgeCall && wr.inW(e.Callee) })
+		nLocks := 0
+		for _, fn := range sortedFns(func() map[*ssa.Function]bool {
+			m := map[*ssa.Function]bool{}
+			for f := range perEvent {
+				m[f] = true
+			}
+			return m
+		}()) {
+			for _, op := range an.BlockingOps(fn) {
+				if op.Kind != "lock" && op.Kind != "rlock" {
+					continue
+				}
+				nLocks++
+				op := op
+				released, at := an.OnAllPathsToExit(op.Instr, func(x ssa.Instruction) bool { return an.IsUnlockOf(x, op) }, an.IsPanicExit)
+				key := an.Short(fn) + ":" + op.Kind + "(" + groupKey(op.OnVal) + "):released"
+				if released {
+					c.OK(rule, key, op.Instr.Pos(), "released on every path of the handler")
+				} else {
+					where := ""
+					if at != nil && len(at.Instrs) > 0 {
+						where = p.Pos(at.Instrs[len(at.Instrs)-1].Pos())
+					}
+					c.Bad(rule, key, op.Instr.Pos(), "%s, which runs for every event, returns at %s with %s still held: the next event (and the event loop, if it takes the same mutex) blocks for ever and no later event is served", an.Short(fn), where, groupKey(op.OnVal))
+				}
+			}
+		}
+		if wr.evLoop != nil && wr.loopFn != nil {
+			loop := wr.evLoop
+			for _, op := range an.BlockingOps(wr.loopFn) {
+				if (op.Kind != "lock" && op.Kind != "rlock") || !loop.Blocks[op.Instr.Block()] {
+					continue
+				}
+				nLocks++
+				// walk forward inside the loop; an unlock ends a path, the header reached with the lock held is a leak
+				type item struct {
+					b   *ssa.BasicBlock
+					idx int
+				}
+				seen := map[*ssa.BasicBlock]bool{}
+				work := []item{{op.Instr.Block(), an.InstrIndex(op.Instr) + 1}}
+				leak := false
+				for len(work) > 0 && !leak {
+					it := work[len(work)-1]
+					work = work[:len(work)-1]
+					hit := false
+					for i := it.idx; i < len(it.b.Instrs); i++ {
+						if an.IsUnlockOf(it.b.Instrs[i], op) {
+							hit = true
+							break
+						}
+					}
+					if hit {
+						continue
+					}
+					for _, sc := range it.b.Succs {
+						if !loop.Blocks[sc] {
+							continue
+						}
+						if sc == loop.Header {
+							leak = true
+							break
+						}
+						if !seen[sc] {
+							seen[sc] = true
+							work = append(work, item{sc, 0})
+						}
+					}
+				}
+				key := an.Short(wr.loopFn) + ":" + op.Kind + "(" + groupKey(op.OnVal) + "):released-per-pass"
+				c.Check(!leak, rule, key, op.Instr.Pos(), "released before the next pass of the event loop", "a pass of the event loop can end with "+groupKey(op.OnVal)+" still held: the next pass blocks on it for ever")
+			}
+		}
+		if nLocks == 0 {
+			c.OK(rule, an.Short(wr.handle)+":locks", wr.handle.Pos(), "neither the handler nor the event loop takes a mutex")
+		}
+	}
 	// no Run after Cancel on the same runner
 	bad := false
 	for _, fn := range p.Funcs {
